@@ -454,7 +454,7 @@ func TestVP_C26_history(t *testing.T) {
 	c := kit.New(t, "C26", "rapid: 7 fresh node ids per case on one shared store; 1..3 chains x 2..6 rounds x 1..6 snapshots (signer sets always containing the proposer, or a signer-less genesis-like first round), rounds within <3 s, day changes frequent, credit fixed per round (false whenever the round straddles midnight); T.Repeat of submissions that stay inside what kernel/mint.go guarantees (round <= offset+1, growing member sets, plus repeats and stale older rounds) with the store closed and reopened at drawn call boundaries followed by the kernel's restart re-submission; after every call ListNodeWorks for all nodes and days (and the days around) and ReadWorkOffset are compared with a set-semantics model; non-trivial = a round submitted >=3 times with a set that grew at least twice in a chain that spans >=2 days; distinct by the call trace")
 	c.Require("round-3x-growing", "two-days", "stale-round-ignored", "reopened", "no-credit-round", "genesis-like", "multi-chain", "round-straddles-midnight")
 	c.Assume("Badger commits are atomic and durable (SyncWrites): a crash is modelled as close+reopen at a call boundary", "snapshots without signers (genesis) earn their proposer 0 or 1 proposal credit: only bounded, not pinned")
-	kit.SetChecks(kit.N(250, 10000))
+	kit.SetChecks(kit.N(400, 10000))
 	kit.SetSteps(16)
 	sh := vpC26Open(t)
 	rapid.Check(t, func(t *rapid.T) {
